@@ -429,13 +429,24 @@ fn run_case(c: &Case, m: Option<&ModelAns>, ks: &Keys, r: &mut Rng, salt: u64, o
         // as the lite-block HTTP route does (saito-rust/src/network_controller.rs:920-930): the full block is read
         // back from its serialized form and generate()d before generate_lite_block
         let buf = full.serialize_for_net(BlockType::Full);
-        let mut loaded = Block::deserialize_from_net(&buf).expect("full block decodes");
-        loaded.generate().expect("generate");
-        if loaded.hash != full.hash || loaded.merkle_root != full.merkle_root {
-            out.monitor_fail("C18/harness/full-block-changed-on-disk-trip", "hash or merkle root of the full block changed", serde_json::json!({"op": c.op()}));
+        match Block::deserialize_from_net(&buf).ok().and_then(|mut l| l.generate().ok().map(|_| l)) {
+            Some(loaded) => {
+                if loaded.hash != full.hash || loaded.merkle_root != full.merkle_root {
+                    out.monitor_fail("C18/harness/full-block-changed-on-disk-trip", "hash or merkle root of the full block changed", serde_json::json!({"op": c.op()}));
+                }
+                full = loaded;
+                out.count("full_block=decoded-from-bytes");
+            }
+            None => {
+                // the node that serves lite blocks cannot even read this block back: nothing can be projected from it
+                out.monitor_fail(
+                    "C18/full-block-not-readable-by-the-serving-node",
+                    "the full block of the case does not decode / generate from its own serialized form, so no lite block can be served for it",
+                    serde_json::json!({"op": c.op(), "origin": c.origin}),
+                );
+                out.count("full_block=NOT-DECODABLE");
+            }
         }
-        full = loaded;
-        out.count("full_block=decoded-from-bytes");
     } else {
         out.count("full_block=built-in-memory");
     }
